@@ -1,7 +1,18 @@
-//! C03 at DESCRIPTOR level (`Descriptor::get_satisfaction`, `Descriptor::into_plan` +
-//! `Plan::satisfy`): the spend the library hands out as non-malleable for a descriptor that
+//! C03 at DESCRIPTOR level: the spend the library hands out as non-malleable for a descriptor that
 //! passes the default sanity rules must be the only (scriptSig, witness) pair a third party can
 //! get accepted for that output.
+//!
+//! ROUTES (every one ends in `judge_spend`; identical spends are judged once): `Descriptor::
+//! get_satisfaction`, `Descriptor::into_plan` + `Plan::satisfy`, the deprecated `Descriptor::plan`,
+//! `Descriptor::satisfy(&mut TxIn)`, the inner type's own `get_satisfaction` (`Wsh`, `Sh`, `Bare`,
+//! `Pkh`, `Wpkh`, `Tr`), the PSBT finalizer (`update_with_descriptor_unchecked` + everything the
+//! caller holds + `finalize_mut`), and the object STATES: a freshly parsed descriptor (nothing
+//! cached), a used clone (after script_pubkey / address / spend_info), a `Plan` reused after a
+//! failed `satisfy`, a `Psbt` finalized after a failed `finalize_mut`.
+//!
+//! SANITY is the library's decision (`sane_desc`): `validate(&Ctx::SANE)` of every miniscript +
+//! `Descriptor::from_str`.  Descriptors refused today go through the same gate on every run and
+//! are judged the day a rule lets them through.
 //!
 //! What the third party may use (stated once, the Lean judge builds exactly this): every stack
 //! element of the library's spend (scriptSig pushes and witness items), the empty string, 01, 02,
@@ -26,8 +37,12 @@ use miniscript::bitcoin::secp256k1::{Message, Secp256k1};
 use miniscript::bitcoin::sighash::{Prevouts, SighashCache};
 use miniscript::bitcoin::taproot::{self, ControlBlock, TaprootBuilder};
 use miniscript::bitcoin::ScriptBuf;
-use miniscript::descriptor::TapTree;
-use miniscript::{DefiniteDescriptorKey, Descriptor, Miniscript, Tap};
+use miniscript::bitcoin::psbt::Psbt;
+use miniscript::bitcoin::sighash::TapSighashType;
+use miniscript::bitcoin::{Network, TxIn};
+use miniscript::descriptor::{ShInner, TapTree};
+use miniscript::psbt::{PsbtExt, PsbtInputExt};
+use miniscript::{BareCtx, DefiniteDescriptorKey, Descriptor, Legacy, Miniscript, Satisfier, ScriptContext, Segwitv0, Tap};
 
 use crate::ast::{self, hex, Node, HK};
 use crate::c17::{dd_key, dd_ms, dd_tr, kent, PSat, Rel, Src, Wrap, DD, PA};
@@ -190,6 +205,28 @@ fn build_tr(tcase: &TrCase) -> Option<DD> {
         rawpkhs: { let mut r = vec![]; for n in &tcase.leaves { n.rawpkhs(&mut r); } r.sort(); r.dedup(); r }, sane: true })
 }
 
+/// does one miniscript of the descriptor hold the same curve point (x-only in tap) under two key
+/// occurrences?  (in a descriptor that passed the sanity gate these are different `Pk` values)
+fn one_point_twice(dd: &DD) -> bool {
+    use miniscript::ToPublicKey;
+    fn dup<I: Iterator<Item = DefiniteDescriptorKey>>(it: I, xonly: bool) -> bool {
+        let mut seen: BTreeSet<Vec<u8>> = BTreeSet::new();
+        for k in it {
+            let p = k.to_public_key();
+            let b = if xonly { p.inner.x_only_public_key().0.serialize().to_vec() } else { p.inner.serialize().to_vec() };
+            if !seen.insert(b) { return true; }
+        }
+        false
+    }
+    catch(|| match &dd.desc {
+        Descriptor::Wsh(w) => dup(w.as_inner().iter_pk(), false),
+        Descriptor::Sh(s) => match s.as_inner() { ShInner::Wsh(w) => dup(w.as_inner().iter_pk(), false), ShInner::Ms(ms) => dup(ms.iter_pk(), false), _ => false },
+        Descriptor::Bare(b) => dup(b.as_inner().iter_pk(), false),
+        Descriptor::Tr(t) => t.leaves().any(|l| dup(l.miniscript().iter_pk(), true)),
+        _ => false,
+    }).unwrap_or(false)
+}
+
 /// judge one spend the library produced (entry = which API produced it)
 fn judge_spend(out: &mut Out, dd: &DD, tr: Option<&TrCase>, ps: &PSat, wit: &[Vec<u8>], ss: &ScriptBuf, info: &str) {
     let (lt, sq) = (ps.tx.lock_time.to_consensus_u32(), ps.tx.input[0].sequence.to_consensus_u32());
@@ -206,8 +243,10 @@ fn judge_spend(out: &mut Out, dd: &DD, tr: Option<&TrCase>, ps: &PSat, wit: &[Ve
         }
     }
     let ex = extras(dd);
-    // one curve point in two key encodings: its own op name (same judge), see c03::two_encodings
-    let two = dd.keys.iter().chain(dd.rawpkhs.iter()).any(|k| *k < 100 && (dd.keys.contains(&(k + 100)) || dd.rawpkhs.contains(&(k + 100))));
+    // one curve point as two different `Pk` values in one script (two encodings, or the same key
+    // with and without origin / parity): its own op name (same judge), see c03::two_encodings
+    let two = dd.keys.iter().chain(dd.rawpkhs.iter()).any(|k| *k < 100 && (dd.keys.contains(&(k + 100)) || dd.rawpkhs.contains(&(k + 100))))
+        || one_point_twice(dd);
     out.line(&format!("J {} {} {} {} {} {} {} | {}", if two { "dnonmall2e" } else { "dnonmall" }, lt, sq, spk, hex(ss.as_bytes()), wit_wire(wit), wit_wire(&ex), info), "ok");
     out.count(&format!("desc judged: {:?}", dd.desc.desc_type()));
     // ---- other envelopes of a taproot output
@@ -254,10 +293,115 @@ fn pa_of2(dd: &DD, keymask: u32, premask: u32, lt: u32, sq: u32, key_spend: bool
     pa
 }
 
-/// the default sanity rules at descriptor level: what `Descriptor::from_str` accepts
-fn passes_default_sanity(dd: &DD) -> bool {
-    catch(|| Descriptor::<DefiniteDescriptorKey>::from_str(&dd.desc.to_string()).is_ok()).unwrap_or(false)
+/// the default sanity rules at descriptor level, decided by the LIBRARY: every miniscript of the
+/// descriptor passes `validate(&Ctx::SANE)` (the only sanity API there is; `Descriptor::from_str`
+/// applies it to tap leaves only) and the descriptor's text is accepted by `Descriptor::from_str`
+fn sane_desc(dd: &DD) -> bool {
+    catch(|| {
+        let by_type = match &dd.desc {
+            Descriptor::Wsh(w) => w.as_inner().validate(&Segwitv0::SANE).is_ok(),
+            Descriptor::Sh(s) => match s.as_inner() {
+                ShInner::Wsh(w) => w.as_inner().validate(&Segwitv0::SANE).is_ok(),
+                ShInner::Wpkh(_) => true,
+                ShInner::Ms(ms) => ms.validate(&Legacy::SANE).is_ok(),
+            },
+            Descriptor::Bare(b) => b.as_inner().validate(&BareCtx::SANE).is_ok(),
+            Descriptor::Tr(t) => t.leaves().all(|l| l.miniscript().validate(&Tap::SANE).is_ok()),
+            _ => true,
+        };
+        by_type && Descriptor::<DefiniteDescriptorKey>::from_str(&dd.desc.to_string()).is_ok()
+    }).unwrap_or(false)
 }
+
+type Spend = (Vec<Vec<u8>>, ScriptBuf);
+
+/// the PSBT route: the input is described by the library (`update_with_descriptor_unchecked`),
+/// receives EVERYTHING the caller holds (every signature the caller's keys can make for this
+/// transaction, the caller's preimages) and is finalized in non-malleable mode.
+/// `fail_first`: a `finalize_mut` on the still unsigned input comes first (used object).
+fn psbt_route(dd: &DD, pa: &PA, lt: u32, sq: u32, shd: bool, fail_first: bool) -> Option<Option<Spend>> {
+    use miniscript::bitcoin::hashes::{hash160, ripemd160, sha256, sha256d};
+    let ps = PSat::new(dd, pa, lt, sq);
+    catch(|| {
+        let secp = Secp256k1::verification_only();
+        let mut psbt = Psbt::from_unsigned_tx(ps.tx.clone()).ok()?;
+        psbt.inputs[0].witness_utxo = Some(ps.prevout.clone());
+        psbt.inputs[0].update_with_descriptor_unchecked(&dd.desc).ok()?;
+        if fail_first { let _ = psbt.finalize_mut(&secp); }
+        let tr = is_tr(dd);
+        for k in &dd.keys {
+            let e = kent(*k);
+            if tr {
+                for lh in &dd.leaves {
+                    if let Some(sg) = ps.lookup_tap_leaf_script_sig(&e.def, lh) { psbt.inputs[0].tap_script_sigs.insert((e.pk.inner.x_only_public_key().0, *lh), sg); }
+                }
+            } else if let Some(sg) = ps.lookup_ecdsa_sig(&e.def) { psbt.inputs[0].partial_sigs.insert(e.pk, sg); }
+        }
+        if let Some(ik) = dd.internal {
+            if let Some(sg) = ps.lookup_tap_key_spend_sig(&kent(ik).def) { psbt.inputs[0].tap_key_sig = Some(sg); }
+        }
+        for (kind, id) in &dd.hashes {
+            if !pa.pre.contains(&(*kind, *id)) { continue; }
+            let (v, pre) = (ast::hash_value(*kind, *id), ast::preimage(*id).to_vec());
+            match kind {
+                HK::Sha256 => { psbt.inputs[0].sha256_preimages.insert(sha256::Hash::from_slice(&v).ok()?, pre); }
+                HK::Hash256 => { psbt.inputs[0].hash256_preimages.insert(sha256d::Hash::from_slice(&v).ok()?, pre); }
+                HK::Ripemd160 => { psbt.inputs[0].ripemd160_preimages.insert(ripemd160::Hash::from_slice(&v).ok()?, pre); }
+                HK::Hash160 => { psbt.inputs[0].hash160_preimages.insert(hash160::Hash::from_slice(&v).ok()?, pre); }
+            }
+        }
+        if tr && !shd { psbt.inputs[0].sighash_type = Some(TapSighashType::All.into()); }
+        psbt.finalize_mut(&secp).ok()?;
+        let w: Vec<Vec<u8>> = psbt.inputs[0].final_script_witness.as_ref().map(|w| w.to_vec()).unwrap_or_default();
+        let ss = psbt.inputs[0].final_script_sig.clone().unwrap_or_default();
+        Some((w, ss))
+    })
+}
+
+/// every further route / object state for one (assets, transaction)
+#[allow(deprecated)]
+fn more_routes(dd: &DD, pa: &PA, ps: &PSat, lt: u32, sq: u32, shd: bool) -> Vec<(&'static str, Option<Option<Spend>>)> {
+    let assets = pa.to_assets(&dd.leaves);
+    let mut v: Vec<(&'static str, Option<Option<Spend>>)> = vec![];
+    // Descriptor::satisfy writes the spend into a TxIn
+    v.push(("Descriptor::satisfy(TxIn)", catch(|| {
+        let mut txin: TxIn = ps.tx.input[0].clone();
+        dd.desc.satisfy(&mut txin, ps).ok().map(|_| (txin.witness.to_vec(), txin.script_sig.clone()))
+    })));
+    // the inner type's own method (one arm each)
+    v.push(("inner::get_satisfaction", catch(|| match &dd.desc {
+        Descriptor::Bare(x) => x.get_satisfaction(ps).ok(),
+        Descriptor::Pkh(x) => x.get_satisfaction(ps).ok(),
+        Descriptor::Wpkh(x) => x.get_satisfaction(ps).ok(),
+        Descriptor::Wsh(x) => x.get_satisfaction(ps).ok(),
+        Descriptor::Sh(x) => x.get_satisfaction(ps).ok(),
+        Descriptor::Tr(x) => x.get_satisfaction(&ps).ok(),
+    })));
+    v.push(("plan(deprecated)+satisfy", catch(|| dd.desc.clone().plan(&assets).ok().and_then(|p| p.satisfy(ps).ok()))));
+    v.push(("psbt finalize_mut", psbt_route(dd, pa, lt, sq, shd, false)));
+    // ---- object states
+    let text = dd.desc.to_string();
+    v.push(("fresh:get_satisfaction", catch(|| Descriptor::<DefiniteDescriptorKey>::from_str(&text).ok().and_then(|d| d.get_satisfaction(ps).ok()))));
+    v.push(("fresh:into_plan+satisfy", catch(|| Descriptor::<DefiniteDescriptorKey>::from_str(&text).ok().and_then(|d| d.into_plan(&assets).ok()).and_then(|p| p.satisfy(ps).ok()))));
+    v.push(("used-clone:get_satisfaction", catch(|| {
+        let d = dd.desc.clone();
+        let _ = d.script_pubkey(); let _ = d.address(Network::Bitcoin); let _ = d.explicit_script();
+        if let Descriptor::Tr(t) = &d { let _ = t.spend_info(); }
+        let d2 = d.clone();
+        d2.get_satisfaction(ps).ok()
+    })));
+    v.push(("plan-after-failed-satisfy", catch(|| {
+        let plan = dd.desc.clone().into_plan(&assets).ok()?;
+        let nothing = PA::default();
+        let ps0 = PSat::new(dd, &nothing, lt, sq);
+        let _ = plan.satisfy(&ps0);
+        let _ = plan.satisfy(ps);
+        plan.satisfy(ps).ok()
+    })));
+    v.push(("psbt finalize_mut after a failed finalize", psbt_route(dd, pa, lt, sq, shd, true)));
+    v
+}
+
 
 fn tx_values(dd: &DD) -> Vec<(u32, u32)> {
     let mut lts = vec![0u32];
@@ -270,28 +414,36 @@ fn tx_values(dd: &DD) -> Vec<(u32, u32)> {
     v
 }
 
+/// `Full`: the asset lattice (full, single removals, random, empty, no preimages) with the two
+/// main routes everywhere and every further route / object state on a thin slice of the lattice.
+/// `Thin`: the whole-corpus sweep - few asset sets, EVERY route on each.
+#[derive(Clone, Copy, PartialEq)]
+pub enum Mode { Full, Thin }
+
 /// all checks for one descriptor
-fn one_desc(out: &mut Out, dd: &DD, tr: Option<&TrCase>, thorough: bool, rng: &mut Rng) -> u64 {
-    if !passes_default_sanity(dd) { out.count("desc skipped: rejected by Descriptor::from_str"); return 0; }
+fn one_desc(out: &mut Out, dd: &DD, tr: Option<&TrCase>, thorough: bool, rng: &mut Rng, mode: Mode) -> u64 {
+    if !sane_desc(dd) { out.count(&format!("desc refused today by the library's sanity rules: {:?}", dd.desc.desc_type())); return 0; }
     let nk = dd.keys.len().min(6) as u32;
     let np = dd.hashes.len().min(3) as u32;
     let fullk = (1u32 << nk) - 1;
     let fullp = (1u32 << np) - 1;
     let mut masks: Vec<(u32, u32)> = vec![(fullk, fullp)];
-    for i in 0..nk { masks.push((fullk & !(1 << i), fullp)); }
-    for i in 0..np { masks.push((fullk, fullp & !(1 << i))); }
-    for _ in 0..(if thorough { 6 } else { 2 }) { masks.push((rng.below(1usize << nk) as u32, rng.below(1usize << np) as u32)); }
+    if mode == Mode::Full {
+        for i in 0..nk { masks.push((fullk & !(1 << i), fullp)); }
+        for i in 0..np { masks.push((fullk, fullp & !(1 << i))); }
+        for _ in 0..(if thorough { 6 } else { 2 }) { masks.push((rng.below(1usize << nk) as u32, rng.below(1usize << np) as u32)); }
+    }
     // nothing at all; every key but no preimage
     masks.push((0, 0));
     if np > 0 { masks.push((fullk, 0)); }
     let mut txs = tx_values(dd);
-    txs.truncate(if thorough { 4 } else { 2 });
+    txs.truncate(if mode == Mode::Thin { 1 } else if thorough { 4 } else { 2 });
     // every key and preimage but NO lock met
     if !txs.contains(&(0, 0xffff_fffe)) { txs.push((0, 0xffff_fffe)); }
     let mut done: BTreeSet<(Vec<Vec<u8>>, Vec<u8>, u32, u32)> = BTreeSet::new();
     let mut n = 0u64;
     for (lt, sq) in txs {
-        for (km, pm) in &masks {
+        for (mi, (km, pm)) in masks.iter().enumerate() {
             // taproot: key path available or not; 64-byte (default sighash) or 65-byte signatures
             for (key_spend, shd) in if is_tr(dd) { vec![(true, true), (false, true), (false, false)] } else { vec![(false, true)] } {
                 let pa = pa_of2(dd, *km, *pm, lt, sq, key_spend, shd);
@@ -301,13 +453,18 @@ fn one_desc(out: &mut Out, dd: &DD, tr: Option<&TrCase>, thorough: bool, rng: &m
                 // entry point 2: Descriptor::into_plan + Plan::satisfy
                 let assets = pa.to_assets(&dd.leaves);
                 let r2 = catch(|| dd.desc.clone().into_plan(&assets).ok().and_then(|p| p.satisfy(&ps).ok()));
-                for (entry, r) in [("get_satisfaction", r1), ("into_plan+satisfy", r2)] {
+                let mut entries: Vec<(&'static str, Option<Option<Spend>>)> = vec![("get_satisfaction", r1), ("into_plan+satisfy", r2)];
+                // every further route and object state
+                let slice = if mode == Mode::Thin { mi == 0 } else { mi <= 1 || (*km, *pm) == (0, 0) || (*km == fullk && *pm == 0) };
+                if slice { entries.extend(more_routes(dd, &pa, &ps, lt, sq, shd)); }
+                for (entry, r) in entries {
                     match r {
-                        None => out.line(&format!("J nopanic {} {} {} PANIC", entry, dd.name, pa.wire()), "ok"),
+                        None => out.line(&format!("J nopanic {} {} {} PANIC", entry.replace(' ', "_"), dd.name, pa.wire()), "ok"),
                         Some(None) => out.count(&format!("desc {}: no spend", entry)),
                         Some(Some((wit, ss))) => {
+                            out.count(&format!("desc route produced a spend: {} / {:?}", entry, dd.desc.desc_type()));
                             if !done.insert((wit.clone(), ss.as_bytes().to_vec(), lt, sq)) { out.count(&format!("desc {}: same spend as already judged", entry)); continue; }
-                            judge_spend(out, dd, tr, &ps, &wit, &ss, &format!("{} {} {}", entry, dd.name, pa.wire()));
+                            judge_spend(out, dd, tr, &ps, &wit, &ss, &format!("{} {} {}", entry.replace(' ', "_"), dd.name, pa.wire()));
                             n += 1;
                         }
                     }
@@ -394,7 +551,14 @@ fn mode_sensitive(tap: bool) -> Vec<Node> {
     ]
 }
 
-pub struct Pools<'a> { pub segwit: &'a [Node], pub legacy: &'a [Node], pub bare: &'a [Node], pub tap: &'a [Node] }
+pub struct Pools<'a> {
+    pub segwit: &'a [Node], pub legacy: &'a [Node], pub bare: &'a [Node], pub tap: &'a [Node],
+    /// EVERY designated script of the context, sane today or not (the library decides per wrapper)
+    pub des_segwit: &'a [Node], pub des_legacy: &'a [Node], pub des_bare: &'a [Node], pub des_tap: &'a [Node],
+    /// the rule-by-rule part of `des_tap` (hand, dissatisfaction classes, repeated keys, refused today,
+    /// type-malleable): also swept as the SECOND leaf of a two-leaf tree
+    pub des_tap_rules: &'a [Node],
+}
 
 fn pick<'a>(pool: &'a [Node], n: usize, keep_first: usize, rng: &mut Rng) -> Vec<&'a Node> {
     let mut v: Vec<&Node> = pool.iter().take(keep_first).collect();
@@ -426,13 +590,13 @@ pub fn run(out: &mut Out, thorough: bool, rng: &mut Rng, pools: &Pools, n_hand: 
         for node in nodes {
             // Bare accepts only a few shapes; `dd_ms` returns None otherwise
             match dd_ms(wrap, node) {
-                Some(dd) => { n_desc += 1; n_spends += one_desc(out, &dd, None, thorough, rng); }
+                Some(dd) => { n_desc += 1; n_spends += one_desc(out, &dd, None, thorough, rng, Mode::Full); }
                 None => out.count(&format!("desc not constructible: {:?}", wrap)),
             }
         }
     }
     for (wrap, key) in [(Wrap::Pkh, 0u32), (Wrap::Wpkh, 1), (Wrap::ShWpkh, 2)] {
-        if let Some(dd) = dd_key(wrap, key) { n_desc += 1; n_spends += one_desc(out, &dd, None, thorough, rng); }
+        if let Some(dd) = dd_key(wrap, key) { n_desc += 1; n_spends += one_desc(out, &dd, None, thorough, rng, Mode::Full); }
     }
     // ---- taproot: 1..3 leaves with pairwise distinct keys between leaves, fresh internal key;
     //      plus the corpus of leaf-level special cases
@@ -499,8 +663,73 @@ pub fn run(out: &mut Out, thorough: bool, rng: &mut Rng, pools: &Pools, n_hand: 
     }
     for tcase in &tr_cases {
         match build_tr(tcase) {
-            Some(dd) => { n_desc += 1; n_spends += one_desc(out, &dd, Some(tcase), thorough, rng); }
+            Some(dd) => { n_desc += 1; n_spends += one_desc(out, &dd, Some(tcase), thorough, rng, Mode::Full); }
             None => out.count("desc not constructible: tr case"),
+        }
+    }
+    // ---- ONE POINT, TWO DESCRIPTOR KEYS: the same single key with and without its origin are
+    //      different `Pk` values (the repeated-key check compares `Pk`s); signatures come from the
+    //      key-table entry (with origin) only, the other occurrence is satisfiable by the SAME
+    //      signature
+    {
+        let k = kent(1);     // a single key WITH origin in the key table
+        let plain = hex(&k.pk.inner.serialize());
+        let other = kent(2).def.to_string();
+        for text in [
+            format!("wsh(or_d(pk({}),pk({})))", k.def, plain),
+            format!("wsh(or_d(pk({}),and_v(v:pk({}),pk({}))))", plain, other, k.def),
+            format!("sh(wsh(or_d(pk({}),pk({}))))", k.def, plain),
+            format!("sh(or_d(pk({}),pk({})))", k.def, plain),
+            format!("tr({},or_d(pk({}),pk({})))", kent(9).def, k.def, plain),
+        ] {
+            match catch(|| Descriptor::<DefiniteDescriptorKey>::from_str(&text).ok()).flatten() {
+                Some(desc) => {
+                    if std::env::var("C03_DEBUG").is_ok() { if let Descriptor::Wsh(w) = &desc { eprintln!("2pk {} -> {:?}", text, w.as_inner().validate(&Segwitv0::SANE)); } }
+                    let tr = matches!(desc, Descriptor::Tr(_));
+                    let leaves = if let Descriptor::Tr(t) = &desc {
+                        t.leaves().map(|l| miniscript::bitcoin::taproot::TapLeafHash::from_script(&l.miniscript().encode(), miniscript::bitcoin::taproot::LeafVersion::TapScript)).collect()
+                    } else { vec![] };
+                    let mut keys = vec![1u32]; if text.contains(&other) { keys.push(2); } if tr { keys.push(9); }
+                    let dd = DD { name: text.clone(), desc, keys, hashes: vec![], afters: vec![], olders: vec![], leaves,
+                        internal: if tr { Some(9) } else { None }, leaf_keys: if tr { vec![vec![1]] } else { vec![] }, rawpkhs: vec![], sane: true };
+                    let tcase = TrCase { internal: 9, leaves: vec![Node::OrD(bx(pk(201)), bx(pk(201)))], shape: None, desc_text: Some(text.clone()) };
+                    n_desc += 1;
+                    n_spends += one_desc(out, &dd, if tr { Some(&tcase) } else { None }, thorough, rng, Mode::Full);
+                }
+                None => { if std::env::var("C03_DEBUG").is_ok() { eprintln!("2pk refused {} {:?}", text, Descriptor::<DefiniteDescriptorKey>::from_str(&text).err()); } out.count("desc refused today: one point as two descriptor keys") }
+            }
+        }
+    }
+    // ---- R1 / R2: the WHOLE designated corpus of each context through every wrapper and every
+    //      route (thin asset sets), sane today or not: `one_desc` asks the library
+    for (wrap, des) in [(Wrap::Wsh, pools.des_segwit), (Wrap::ShWsh, pools.des_segwit), (Wrap::Sh, pools.des_legacy), (Wrap::Bare, pools.des_bare)] {
+        for node in des {
+            match dd_ms(wrap, node) {
+                Some(dd) => { n_desc += 1; n_spends += one_desc(out, &dd, None, thorough, rng, Mode::Thin); }
+                None => out.count(&format!("desc sweep, not constructible: {:?}", wrap)),
+            }
+        }
+    }
+    for node in pools.des_tap {
+        let used = tap_keys_of(node);
+        let internal = (0..10u32).rev().find(|k| !used.contains(k)).unwrap_or(9);
+        let tcase = tc(internal, vec![node.clone()]);
+        match build_tr(&tcase) {
+            Some(dd) => { n_desc += 1; n_spends += one_desc(out, &dd, Some(&tcase), thorough, rng, Mode::Thin); }
+            None => out.count("desc sweep, not constructible: tr leaf"),
+        }
+    }
+    // a leaf that a sanity rule refuses today next to an ordinary leaf: the other-leaf search
+    // (J dnoalt) is what a rule that lets it through must face
+    for node in pools.des_tap_rules {
+        let used = tap_keys_of(node);
+        let (other, internal) = match ((0..10u32).find(|k| !used.contains(k)), (0..10u32).rev().find(|k| !used.contains(k))) {
+            (Some(a), Some(b)) if a != b => (a, b), _ => continue,
+        };
+        let tcase = tc(internal, vec![pk(200 + other), node.clone()]);
+        match build_tr(&tcase) {
+            Some(dd) => { n_desc += 1; n_spends += one_desc(out, &dd, Some(&tcase), thorough, rng, Mode::Thin); }
+            None => out.count("desc sweep, not constructible: tr two leaves"),
         }
     }
     controls(out);
